@@ -169,6 +169,14 @@ func BuildMulti(g string, s []ro.Observable[any]) (ro.Observable[any], error) {
 		return ro.ThrottleWhen[any](s[1])(s[0]), nil
 	case "GroupBy":
 		return tupleAny(ro.GroupBy(func(v any) int { return v.(int) % 2 })(s[0])), nil
+	case "GroupByWithContext":
+		return tupleAny(ro.GroupByWithContext(func(ctx context.Context, v any) (context.Context, int) {
+			return context.WithValue(ctx, rec.KeyCb, true), v.(int) % 2
+		})(s[0])), nil
+	case "GroupByIWithContext":
+		return tupleAny(ro.GroupByIWithContext(func(ctx context.Context, v any, _ int64) (context.Context, int) {
+			return context.WithValue(ctx, rec.KeyCb, true), v.(int) % 2
+		})(s[0])), nil
 	case "GroupByI":
 		return tupleAny(ro.GroupByI(func(v any, _ int64) int { return v.(int) % 2 })(s[0])), nil
 	case "WindowWhen":
@@ -340,6 +348,10 @@ func replayMulti(idx int, c *MCase, mode string, out *[]Mismatch) {
 	r := &replica{firstVal: -1}
 	r.checkGid = true
 	r.leaveGroups = c.M.Op == "GroupByLeave"
+	if c.M.Op == "GroupByCut" {
+		r.cutOnGroup = 2
+		r.cutFn = func() { dest.Unsubscribe() }
+	}
 	r.me = gid()
 	base := context.WithValue(context.Background(), rec.KeySub, true)
 	guard := func(step int, f func()) {
